@@ -42,8 +42,14 @@ TraceQuiesce ==
   /\ ~Runnable(St) /\ ~EnvDue(St)
   /\ Line.live = 0 <=> AllEnded                              \* C19: goroutines of the library still alive
   /\ \A id \in DOMAIN cfg.bhmax : Line.used[id] = pol[id]    \* C06: permits in use as probed through TryAcquirePermit
+  \* C07 / C09: the context each invocation ran under is cancelled afterwards exactly when the model's copy is (a Timeout that
+  \* did not fire, a hedge's winner: not cancelled; timed-out attempts, hedge losers, cancelled executions: cancelled)
+  /\ \A x \in 1..Len(Line.ctxs) : \A k \in 1..Len(Line.ctxs[x]) :
+        k <= Len(xs[x].callobj) /\ Line.ctxs[x][k] = Canceled(xs[x], xs[x].callobj[k])
   \* C04: breaker state and, when half-open, the trial permits left (probed through TryAcquirePermit) agree with the model
   /\ \A id \in DOMAIN Line.cb : Line.cb[id].state = pol[id].st /\ (pol[id].st = "halfopen" => Line.cb[id].permits = pol[id].permitted)
+  \* C16: OnRateLimitExceeded only for real refusals (the model counts the spurious ones of StaleLastErrorOnCancelledWait)
+  /\ (IF \A x \in 1..Len(xs) : xs[x].spurious = 0 THEN TRUE ELSE PrintT(<<"PROPVIOL", "C16", l>>))
   /\ (IF C04_OK THEN TRUE ELSE PrintT(<<"PROPVIOL", "C04", l>>))
   /\ (IF C15_OK THEN TRUE ELSE PrintT(<<"PROPVIOL", "C15", l>>))
   \* property predicates on the real trace: a failure is reported (with the line number) and validation goes on
